@@ -94,6 +94,11 @@ def gen_ops(rng, tier):
             limit = rng.choice([0, 1, 5, 11, 12, 13, 14, 15, 100, 65535, ln, max(ln - 1, 0), ln + 1])
             items.append((code, ln, rng.randrange(1 << 20), limit))
         ops.append("msave %d %s" % (k, " ".join("%d %d %d %d" % it for it in items)))
+    # header fields under the save-length limits of an application that keeps APP0 / APP14 markers (libjpeg API)
+    lims = [-1, 0, 1, 2, 5, 8, 11, 12, 13, 14, 15, 16, 100, 65535]
+    for cs in (0, 1, 2, 3, 4):
+        for l in lims:
+            ops.append("jfifsave %d %d %d %d %d %d" % (cs, rng.choice([0, 1, 2]), rng.choice([2, 72, 300, 65535]), rng.choice([3, 96, 600, 65535]), l if cs <= 1 else rng.choice(lims), rng.choice(lims) if cs <= 1 else l))
     # sampling factors -> subsampling level
     std = {0: (1, 1), 1: (2, 1), 2: (2, 2), 4: (1, 2), 5: (4, 1), 6: (1, 4)}
     for s, (h, v) in std.items():
@@ -146,7 +151,7 @@ def search(ctx, failing_ops):
     rng = random.Random("search/%s" % ctx["seed"])
     ops = list(failing_ops)
     # a disagreeing reader/writer op is re-examined through the end-to-end oracle (iccw, hdr)
-    ops += [o for o in gen_ops(rng, "quick") if o.split(" ")[0] in ("iccw", "hdr")]
+    ops += [o for o in gen_ops(rng, "quick") if o.split(" ")[0] in ("iccw", "hdr", "jfifsave")]
     found = []
     for v, exe in ctx["exes"].items():
         res, _ = C.run_exec(exe, ops)
